@@ -201,6 +201,9 @@ func (m *SessionManager) CreateSession(clientMAC, serverMAC net.HardwareAddr) (*
 	defer m.mu.Unlock()
 
 	// Find next available session ID
+	if len(m.sessions) >= 65535 {
+		return nil, fmt.Errorf("no free session ID")
+	}
 	for {
 		if _, exists := m.sessions[m.nextID]; !exists {
 			break
